@@ -49,6 +49,20 @@ def run(chk):
             extremes.append({"config": {"terminal_id": "11112222"}, "calls": calls, "plan": {"exchanges": [], "default": {"o": "abort", "code": code}}})
             extremes.append({"config": {"terminal_id": "11112222"}, "calls": calls,
                              "plan": {"exchanges": [], "scripts": {"EndOfDay": ab(0xa0), "Reservation": ab(code), "ReadCard": ab(code)}, "default": okp}})
+    # five minutes of idle time, then a terminal that answers with an intermediate status and falls silent - in every exchange
+    stall2 = dict(okp, inter=1, fault={"pos": 2, "kind": "silence"})
+    stall1 = dict(okp, fault={"pos": 1, "kind": "silence"})
+    for st in (stall1, stall2):
+        for calls in ([{"op": "begin", "token": [97]}, {"op": "commit", "token": [97], "amount": [1], "idle_ms": 400000}],
+                      [{"op": "read_card"}, {"op": "read_card", "idle_ms": 301000}], [{"op": "begin", "token": [97]}, {"op": "configure", "idle_ms": 3600000}]):
+            extremes.append({"config": {"terminal_id": "11112222"}, "calls": calls, "plan": {"exchanges": [okp], "default": st}})
+    # two transactions open, the terminal falls silent in the reversal that closes one of them
+    for op in ("commit", "cancel"):
+        for pos in (0, 1, 2):
+            extremes.append({"config": {"max": 2}, "calls": [{"op": "begin", "token": [97]}, {"op": "begin", "token": [98]},
+                                                              {"op": op, "token": [97], "amount": [1]}, {"op": "read_card"}],
+                             "plan": {"exchanges": [okp, okp, dict(okp, fault={"pos": pos, "kind": "silence"})],
+                                      "default": dict(okp, fault={"pos": pos, "kind": "silence"})}})
     total = 0
     for label, binary in (("debug", dbg), ("release", rel)):
         out = cl.run_scenarios(binary, sc + extremes, wd, "c10" + label)
